@@ -43,6 +43,75 @@ static void note_cfg(const char *prefix, cfg_t c) {
     char key[64]; snprintf(key, sizeof key, "%s.be%d", prefix, c.be); stat_add(key, 1);
 }
 
+/* every erasure set of a stripe with at most `maxe` members: decode (and reconstruct of each missing
+   member when `rec`), as direct oracles.  Sets larger than the tolerance are checked in mode 1. */
+static void sweep_stripe(stripe_t *s, int maxe, int rec, const char *prop, const char *statkey) {
+    int tol = cfg_tolerance(s->c);
+    for (int e = 0; e <= maxe && e <= s->n; e++) {
+        int comb[40]; for (int i = 0; i < e; i++) comb[i] = i;
+        do {
+            uint64_t g = 0; for (int i = 0; i < e; i++) g |= 1ull << comb[i];
+            int mode = e > tol;
+            sweep_dec(s, g, (int)rnd(2), (int)rnd(2), mode, prop);
+            if (rec) for (int i = 0; i < e; i++) sweep_rec(s, g, comb[i], mode, prop);
+            stat_add(statkey, 1);
+        } while (e > 0 && next_comb(comb, e, s->n));
+    }
+}
+
+/* all flat XOR tables (every set below hd, plus the sets of size hd when `beyond`), small RS codes
+   (every set up to m, plus m+1 when `beyond`): payload sizes that are / are not multiples of 16 */
+static void sweep_all(int tier, int rec, int beyond, const char *prop, const char *statkey) {
+    for (int x = 0; x < n_xor_shapes; x++) {
+        for (int pass = 0; pass < (tier ? 3 : 1); pass++) {
+            cfg_t c = { 3, xor_shapes[x][0], xor_shapes[x][1], xor_shapes[x][2], 1 + (int)rnd(2) };
+            size_t len = pass == 0 ? (size_t)c.k * 4 * (1 + rnd(7)) - rnd(3) : (pass == 1 ? 1 + rnd(c.k * 4) : (size_t)c.k * 16 * (1 + rnd(3)));
+            stripe_t s;
+            if (stripe_make(&s, c, len ? len : 1, 0, 0) != 0) { oracle_fail(prop, "cannot encode with XOR shape (%d,%d,%d)", c.k, c.m, c.hd); continue; }
+            sweep_stripe(&s, c.hd - 1 + (beyond && c.k + c.m <= (tier ? 26 : 14) ? 1 : 0), rec, prop, statkey);
+            stripe_free(&s);
+        }
+    }
+    for (int n = 2; n <= (tier ? 12 : 9); n++) for (int k = 1; k < n; k++) {
+        cfg_t c = { 6, k, n - k, n - k, 1 + (int)rnd(2) };
+        stripe_t s;
+        if (stripe_make(&s, c, 1 + rnd(6 * k), 0, 0) != 0) { oracle_fail(prop, "cannot encode with rs_vand (%d,%d)", k, n - k); continue; }
+        sweep_stripe(&s, c.m + (beyond ? 1 : 0), rec && n <= (tier ? 12 : 8), prop, statkey);
+        stripe_free(&s);
+    }
+}
+
+/* large inputs (direct oracle only): per-fragment payloads from 1 KiB to beyond 1 MiB, every residue class
+   of the payload size modulo 16/32/64, bulk code paths (vector loops, streaming copies, tails) */
+static void sweep_large(int tier, int rec, const char *prop, const char *statkey) {
+    static const cfg_t cfgs[] = { {3,3,3,3,2}, {3,5,5,3,1}, {3,10,6,4,2}, {6,4,2,2,2}, {6,10,4,4,1}, {6,2,1,1,1}, {3,12,6,4,1}, {6,1,3,3,2} };
+    for (unsigned ci = 0; ci < sizeof cfgs / sizeof cfgs[0]; ci++) {
+        cfg_t c = cfgs[ci]; int wb = cfg_wbytes(c);
+        int nl = tier ? 24 : 6;
+        for (int li = 0; li < nl; li++) {
+            /* payload size: log-uniform, every third one above 256 KiB; then any residue */
+            size_t P = (li % 3 == 0) ? (262144 + rnd(900000)) : ((size_t)1 << (10 + rnd(10))) + rnd(4096);
+            if (c.k >= 10 && P > 400000) P = 262144 + rnd(100000);
+            P = P / wb * wb + (size_t)wb * rnd(16);
+            size_t len = (size_t)c.k * P - rnd((uint32_t)(c.k * wb));
+            stripe_t s;
+            if (stripe_make(&s, c, len, 0, 0) != 0) { oracle_fail(prop, "cannot encode %zu bytes with be=%d (%d,%d,%d)", len, c.be, c.k, c.m, c.hd); continue; }
+            int tol = cfg_tolerance(c);
+            for (int q = 0; q < 3; q++) {
+                int e = q == 0 ? 1 : (q == 1 ? tol : 1 + (int)rnd(tol));
+                uint64_t g = 0;
+                if (q < 2) { int have = 0; while (have < e && have < c.k) { int i = (int)rnd(c.k); if (!((g >> i) & 1)) { g |= 1ull << i; have++; } } }   /* data fragments */
+                else g = random_erasures(s.n, e);
+                sweep_dec(&s, g, (int)rnd(2), (int)rnd(2), 0, prop);
+                if (rec) for (int i = 0; i < s.n; i++) if ((g >> i) & 1) sweep_rec(&s, g, i, 0, prop);
+                stat_add(statkey, 1);
+            }
+            char key[64]; snprintf(key, sizeof key, "%s_payload_mod16_%d", statkey, (int)((s.flen - HDR) % 16)); stat_add(key, 1);
+            stripe_free(&s);
+        }
+    }
+}
+
 /* ======================================================================= rt (C01) */
 static void rt_one(stripe_t *s, uint64_t gone, int variant, int force) {
     char *fr[80]; int n = survivors(s, gone, fr);
@@ -82,6 +151,9 @@ void suite_rt(int tier) {
         }
         stripe_free(&s);
     }
+    /* direct oracle, exhaustive over erasure sets (every XOR table, small RS codes) */
+    sweep_all(tier, 0, 0, "C01", "rt.sweep_sets");
+    sweep_large(tier, 0, "C01", "rt.large");
     /* every flat-XOR table: all erasure sets below hd (thorough) / a sample (quick) */
     for (int x = 0; x < n_xor_shapes; x++) {
         cfg_t c = { 3, xor_shapes[x][0], xor_shapes[x][1], xor_shapes[x][2], 1 + (int)rnd(2) };
@@ -137,6 +209,8 @@ static void nsc_one(stripe_t *s, uint64_t gone, int dup) {
 }
 
 void suite_nsc(int tier) {
+    /* direct oracle, exhaustive over erasure sets up to one beyond the tolerance */
+    sweep_all(tier, 1, 1, "C02", "nsc.sweep_sets");
     /* small codes: every subset of the stripe */
     for (int x = 0; x < n_xor_shapes; x++) {
         cfg_t c = { 3, xor_shapes[x][0], xor_shapes[x][1], xor_shapes[x][2], 1 };
@@ -229,6 +303,9 @@ void suite_recon(int tier) {
         }
         stripe_free(&s);
     }
+    /* direct oracle, exhaustive over erasure sets, every missing member rebuilt */
+    sweep_all(tier, 1, 0, "C03", "recon.sweep_sets");
+    sweep_large(tier, 1, "C03", "recon.large");
     /* XOR: every table, every set below hd, every destination */
     for (int x = 0; x < n_xor_shapes; x++) {
         cfg_t c = { 3, xor_shapes[x][0], xor_shapes[x][1], xor_shapes[x][2], 2 };
@@ -264,7 +341,8 @@ void suite_recon(int tier) {
 
 /* ======================================================================= rsmat (C04) */
 void suite_rsmat(int tier) {
-    (void)tier;
+    /* the same generator whatever other instances were created and destroyed before (runs first) */
+    { extern void churn(const char *prop, int tier, int rs_only); for (int r = 0; r < (tier ? 10 : 3); r++) churn("C04", tier, 1); }
     /* make sure the tables exist */
     cfg_t c0 = { 6, 2, 1, 1, 1 };
     if (cfg_desc(c0) <= 0) { oracle_fail("C04", "cannot create an rs_vand instance"); return; }
@@ -375,6 +453,15 @@ void suite_xor(int tier) {
         }
         stat_add("xor.tables", 1);
     }
+    /* direct oracle: every table, every erasure set below hd, decode and every member rebuilt */
+    for (int x = 0; x < n_xor_shapes; x++) {
+        cfg_t c = { 3, xor_shapes[x][0], xor_shapes[x][1], xor_shapes[x][2], 1 };
+        stripe_t s;
+        if (stripe_make(&s, c, (size_t)c.k * 4 * (2 + rnd(5)) + rnd(4), 0, 0) != 0) continue;
+        sweep_stripe(&s, c.hd - 1, 1, "C05", "xor.sweep_sets");
+        stripe_free(&s);
+    }
+    sweep_large(tier, 1, "C05", "xor.large");
     /* the box of shapes around the whitelist */
     for (int k = -1; k <= 33; k++) for (int m = -1; m <= 33; m++) for (int hd = 0; hd <= 7; hd++) {
         int interesting = (hd == 3 || hd == 4) && (m == 3 || m == 5 || m == 6 || m == 4 || m == 7) && k >= 2 && k <= 22;
@@ -405,10 +492,13 @@ static int in_span(unsigned char **vecs, int nv, const unsigned char *target, si
     return 0;
 }
 
+static int g_need_quiet = 0;     /* 1: direct oracle only (no model line) */
 static void need_case(stripe_t *s, int *r, int *x) {
     cfg_t c = s->c;
     int out[80]; out[0] = -1;
-    int rc = op_need(c, r, x, out, 0);
+    int rc;
+    if (g_need_quiet) { for (int i = 0; i < 80; i++) out[i] = -1; rc = liberasurecode_fragments_needed(s->desc, r, x, out); stat_add("need.sweep_cases", 1); }
+    else rc = op_need(c, r, x, out, 0);
     int nr = 0, nx = 0; while (r[nr] >= 0) nr++; while (x[nx] >= 0) nx++;
     int tol = cfg_tolerance(c);
     if (rc != 0) {
@@ -451,6 +541,27 @@ static void need_case(stripe_t *s, int *r, int *x) {
 static void perm(int *a, int n) { for (int i = n - 1; i > 0; i--) { int j = (int)rnd(i + 1); int t = a[i]; a[i] = a[j]; a[j] = t; } }
 
 void suite_need(int tier) {
+    /* direct oracle, exhaustive: every XOR table, every set below hd, every split into (R, X), two orders */
+    g_need_quiet = 1;
+    for (int xi = 0; xi < n_xor_shapes; xi++) {
+        cfg_t c = { 3, xor_shapes[xi][0], xor_shapes[xi][1], xor_shapes[xi][2], 1 };
+        stripe_t s;
+        if (stripe_make(&s, c, 8 * c.k * 4, 0, 0) != 0) continue;
+        if (!tier && c.k + c.m > 20 && rnd(2)) { stripe_free(&s); continue; }
+        for (int tot = 1; tot < c.hd; tot++) {
+            int comb[8]; for (int i = 0; i < tot; i++) comb[i] = i;
+            do {
+                for (int mask = 1; mask < (1 << tot); mask++) for (int ord = 0; ord < 2; ord++) {
+                    int r[8], x[8], nr = 0, nx = 0;
+                    for (int i = 0; i < tot; i++) { int j = ord ? tot - 1 - i : i; if ((mask >> j) & 1) r[nr++] = comb[j]; else x[nx++] = comb[j]; }
+                    r[nr] = -1; x[nx] = -1;
+                    need_case(&s, r, x);
+                }
+            } while (next_comb(comb, tot, s.n));
+        }
+        stripe_free(&s);
+    }
+    g_need_quiet = 0;
     /* XOR tables: all disjoint (R, X) with |R| >= 1 and |R|+|X| < hd */
     for (int xi = 0; xi < n_xor_shapes; xi++) {
         cfg_t c = { 3, xor_shapes[xi][0], xor_shapes[xi][1], xor_shapes[xi][2], 1 };
